@@ -139,6 +139,13 @@ def main(prop, tier, seed, replay_path=None):
     reproduced = {}
     harness_errors = [e['error'] for e in errors]
     B = 40
+    unverified = []
+    if getattr(mod, 'REPLAY_ONE_PER_PROCESS', False):
+        # each replay needs its own interpreter: confirm the known ones and at most 60 others; the rest is reported as a count
+        others = [k for k in keys if k not in known]
+        if len(others) > 60:
+            unverified = others[60:]
+            keys = [k for k in keys if k in known or k in set(others[:60])]
     for i in range(0, len(keys), B):
         chunk = keys[i:i + B]
         if getattr(mod, 'REPLAY_ONE_PER_PROCESS', False):
@@ -173,6 +180,8 @@ def main(prop, tier, seed, replay_path=None):
         with open(os.environ['VERIF_DUMP_NEW'], 'a') as f:
             for k in violations:
                 f.write(json.dumps(dict(key=k, tier=tier, observed=reproduced[k][1][:200])) + '\n')
+    if unverified:
+        print('NOTE: %d further candidate violations were not replayed (only the first 60 are confirmed in separate interpreters)' % len(unverified))
     for k, obs in not_repro:
         harness_errors.append('counterexample did not reproduce on the real code: %s :: %s' % (k[:300], obs))
     missing = sorted(k for k in known if k.startswith(prop + '|') and k not in known_hit
